@@ -549,6 +549,7 @@ func CheckSQLPins(P *Program, fn *ssa.Function, c *FuncContract) *FuncReport {
 	ex.top = fn
 	rep := &FuncReport{Func: ex.fnName(fn), Key: c.Key, ex: ex}
 	found := map[string]bool{}
+	allConsts := map[string]bool{}
 	var scan func(f *ssa.Function)
 	scan = func(f *ssa.Function) {
 		for _, b := range f.Blocks {
@@ -556,6 +557,7 @@ func CheckSQLPins(P *Program, fn *ssa.Function, c *FuncContract) *FuncReport {
 				for _, op := range in.Operands(nil) {
 					if k, ok := (*op).(*ssa.Const); ok && k.Value != nil && k.Value.Kind() == constant.String {
 						s := constant.StringVal(k.Value)
+						allConsts[s] = true
 						if looksLikeSQL(s) {
 							found[normSQL(s)] = true
 						}
@@ -568,6 +570,12 @@ func CheckSQLPins(P *Program, fn *ssa.Function, c *FuncContract) *FuncReport {
 		}
 	}
 	scan(fn)
+	for i, t := range c.ConstTexts {
+		o := &Obligation{Name: fmt.Sprintf("%s#const.text[%d]", ex.fnName(fn), i), Kind: "sql.text",
+			Detail: "the configuration string the assumed semantics rest on occurs verbatim in the source: " + t,
+			Goal:   ex.p.Bool(allConsts[t]), PC: ex.p.True(), Func: ex.fnName(fn), Props: c.Props, Pos: P.pos(fn.Pos())}
+		ex.obls = append(ex.obls, o)
+	}
 	pinned := map[string]bool{}
 	for i, t := range c.SQLTexts {
 		pinned[normSQL(t)] = true
